@@ -515,6 +515,17 @@ func (g *c18Gen) generate(thorough bool, n int) {
 		[]byte(`{"id":"gapbq","indexSchema":{"v":{"type":"vectorFlat","vectorFlat":{"vectorSize":4,"distanceMetric":"euclidean","quantizer":{"type":"binary","binary":{"threshold":0.5,"triggerThreshold":-5,"distanceMetric":"hamming"}}}}}}`)))
 	g.add(spec("gap:bq-trigger-without-threshold", "mutated", "POST", "/v2/collections", "alice", ctJ,
 		[]byte(`{"id":"gapbq","indexSchema":{"v":{"type":"vectorFlat","vectorFlat":{"vectorSize":4,"distanceMetric":"euclidean","quantizer":{"type":"binary","binary":{"triggerThreshold":50001,"distanceMetric":"hamming"}}}}}}`)))
+	// a v2 collection whose vamana index named vector has the smallest search size the API allows (25), used through
+	// the v1 API: v1 searches may ask for up to 75 points
+	ss25 := spec("setup", "valid", "POST", "/v2/collections", "alice", ctJ,
+		[]byte(`{"id":"vss25","indexSchema":{"vector":{"type":"vectorVamana","vectorVamana":{"vectorSize":3,"distanceMetric":"euclidean","searchSize":25,"degreeBound":32,"alpha":1.2}}}}`))
+	ss25ins := spec("setup", "valid", "POST", "/v1/collections/vss25/points", "alice", ctJ, []byte(`{"points":[{"vector":[1,2,3]},{"vector":[3,2,1]},{"vector":[0,0,1]}]}`))
+	for _, lim := range []int{1, 25, 26, 75} {
+		s1 := spec("valid:v1-search-on-small-search-size", "valid", "POST", "/v1/collections/vss25/points/search", "alice", ctJ,
+			[]byte(fmt.Sprintf(`{"vector":[1,2,3],"limit":%d}`, lim)))
+		s1.Setup = []xspec{ss25, ss25ins}
+		g.add(s1)
+	}
 	// collection ids with letters and digits that are lower case / decimal in Unicode but not in the documented alphabet
 	for _, id := range []string{"café", "straße", "αβγ", "col٣٤", "abc１２", "абв123", "ｃｏｌ"} {
 		g.add(spec("invalid:v2-create-id-unicode", "mutated", "POST", "/v2/collections", "alice", ctJ, jObj("id", jStr(id), "indexSchema", jObj()).JSON()))
